@@ -5,6 +5,8 @@ From Coq Require Import List ZArith String.
 From Sismic Require Import Base Chart Interp World Spec.
 From SismicProofs Require Import C17Proofs.
 From SismicProofs Require CorollaryProofs.
+From Sismic Require Import Edit Copy.
+From SismicProofs Require EditProofs CopyProofs.
 Import ListNotations.
 Open Scope string_scope.
 
@@ -146,3 +148,238 @@ Theorem rename_structure_thm :
          old <> new -> Edit.rename_state c old new = (c', Edit.EOk) -> CorollaryProofs.rename_rel c c' old new.
 Proof. exact CorollaryProofs.rename_structure. Qed.
 Print Assumptions rename_structure_thm.
+
+(* COPY, structure. What copy_from_statechart builds (theories/Copy.v, the model checked against the implementation on every plug attempt of the check): for a sound host and guest, an existing childless state to replace, fresh pairwise distinct images and transitions contained in the copied subtree, the call succeeds and the host gains exactly the image of the source sub-statechart under the renaming (states with name / initial / memory mapped, parents, children lists in the guest order, the transitions touching the subtree, each once), everything else of the host unchanged *)
+Theorem C17_copy_structure_thm :
+  forall (host guest : chart) (source replace : name) (rho : list (name * name)),
+         EditProofs.einv host ->
+         EditProofs.einv guest ->
+         has_state host replace = true ->
+         children_for host replace = [] ->
+         has_state guest source = true ->
+         source = replace \/ has_state guest replace = false ->
+         (forall n : name, In n (descendants_for guest source) -> has_state host (rho_apply rho n) = false) ->
+         (forall n : name, In n (descendants_for guest source) -> rho_apply rho n <> "") ->
+         NoDup (map (rho_apply rho) (descendants_for guest source)) ->
+         (forall n : name,
+          In n (descendants_for guest source) ->
+          rho_apply rho n = n \/ has_state guest (rho_apply rho n) = false) ->
+         (forall (n p : name) (sp sn : state),
+          In n (descendants_for guest source) ->
+          lookup n (c_parent guest) = Some (Some p) ->
+          lookup p (c_states guest) = Some sp ->
+          lookup n (c_states guest) = Some sn ->
+          is_composite (s_kind sp) = true /\ (is_history (s_kind sn) = true -> s_kind sp = KCompound)) ->
+         (forall t : transition,
+          In t (c_transitions guest) ->
+          forall tg : name,
+          t_target t = Some tg ->
+          t_source t = source \/ In (t_source t) (descendants_for guest source) <->
+          tg = source \/ In tg (descendants_for guest source)) ->
+         exists h' : chart,
+           copy_from_statechart host guest source replace rho = (h', EOk) /\
+           map fst (c_states h') =
+           (map fst (c_states host) ++ map (rho_apply rho) (descendants_for guest source))%list /\
+           c_parent h' =
+           (c_parent host ++
+            map
+              (fun n : name =>
+               (rho_apply rho n, option_map (CopyProofs.rs guest source replace rho) (parent_for guest n)))
+              (descendants_for guest source))%list /\
+           map fst (c_children h') =
+           (map fst (c_children host) ++
+            map (fun n : name => Some (rho_apply rho n)) (descendants_for guest source))%list /\
+           (forall (n : name) (s : state),
+            CopyProofs.in_S guest source n ->
+            lookup n (c_states guest) = Some s ->
+            lookup (CopyProofs.rs guest source replace rho n) (c_states h') =
+            Some (EditProofs.map_state (CopyProofs.rs guest source replace rho) s)) /\
+           (forall n : name,
+            In n (descendants_for guest source) ->
+            lookup (CopyProofs.rs guest source replace rho n) (c_parent h') =
+            Some (option_map (CopyProofs.rs guest source replace rho) (parent_for guest n))) /\
+           lookup replace (c_parent h') = lookup replace (c_parent host) /\
+           (forall n : name,
+            CopyProofs.in_S guest source n ->
+            olookup (Some (CopyProofs.rs guest source replace rho n)) (c_children h') =
+            Some (map (CopyProofs.rs guest source replace rho) (children_for guest n))) /\
+           (forall x : name,
+            has_state host x = true -> x <> replace -> lookup x (c_states h') = lookup x (c_states host)) /\
+           (forall x : name, has_state host x = true -> lookup x (c_parent h') = lookup x (c_parent host)) /\
+           (forall k : option name,
+            olookup k (c_children host) <> None ->
+            k <> Some replace -> olookup k (c_children h') = olookup k (c_children host)) /\
+           (exists (g2 : chart) (idxs : list nat),
+              EditProofs.einv g2 /\
+              CopyProofs.img (CopyProofs.rs guest source replace rho) guest g2 /\
+              idxs = collect_transitions g2 (replace :: descendants_for g2 replace) [] /\
+              c_transitions h' =
+              (c_transitions host ++
+               map (EditProofs.map_trans (CopyProofs.rs guest source replace rho))
+                 (flat_map (nth_trans (c_transitions guest)) idxs))%list /\
+              NoDup idxs /\
+              (forall i : nat,
+               In i idxs <->
+               (exists t : transition,
+                  nth_error (c_transitions guest) i = Some t /\
+                  (CopyProofs.in_S guest source (t_source t) \/
+                   (exists tg : name, t_target t = Some tg /\ CopyProofs.in_S guest source tg))))) /\
+           c_name h' = c_name host /\ c_description h' = c_description host /\ c_preamble h' = c_preamble host.
+Proof. exact CopyProofs.C17_copy_structure. Qed.
+Print Assumptions C17_copy_structure_thm.
+
+(* the order of the copied transitions when the renaming moves every descendant or none *)
+Theorem C17_copy_transitions_order_thm :
+  forall (host guest : chart) (source replace : name) (rho : list (name * name)),
+         EditProofs.einv host ->
+         EditProofs.einv guest ->
+         has_state host replace = true ->
+         children_for host replace = [] ->
+         has_state guest source = true ->
+         source = replace \/ has_state guest replace = false ->
+         (forall n : name, In n (descendants_for guest source) -> has_state host (rho_apply rho n) = false) ->
+         (forall n : name, In n (descendants_for guest source) -> rho_apply rho n <> "") ->
+         NoDup (map (rho_apply rho) (descendants_for guest source)) ->
+         (forall n : name,
+          In n (descendants_for guest source) ->
+          rho_apply rho n = n \/ has_state guest (rho_apply rho n) = false) ->
+         (forall (n p : name) (sp sn : state),
+          In n (descendants_for guest source) ->
+          lookup n (c_parent guest) = Some (Some p) ->
+          lookup p (c_states guest) = Some sp ->
+          lookup n (c_states guest) = Some sn ->
+          is_composite (s_kind sp) = true /\ (is_history (s_kind sn) = true -> s_kind sp = KCompound)) ->
+         (forall t : transition,
+          In t (c_transitions guest) ->
+          forall tg : name,
+          t_target t = Some tg ->
+          t_source t = source \/ In (t_source t) (descendants_for guest source) <->
+          tg = source \/ In tg (descendants_for guest source)) ->
+         (forall n : name, In n (descendants_for guest source) -> rho_apply rho n <> n) \/
+         (forall n : name, In n (descendants_for guest source) -> rho_apply rho n = n) ->
+         exists h' : chart,
+           copy_from_statechart host guest source replace rho = (h', EOk) /\
+           c_transitions h' =
+           (c_transitions host ++
+            map (EditProofs.map_trans (CopyProofs.rs guest source replace rho))
+              (flat_map (nth_trans (c_transitions guest))
+                 (collect_transitions guest (source :: descendants_for guest source) [])))%list.
+Proof. exact CopyProofs.C17_copy_transitions_order. Qed.
+Print Assumptions C17_copy_transitions_order_thm.
+
+(* COPY, soundness: the host stays sound (side conditions K1: the source state has no memory, K2: the source may own transitions if the replaced state has outgoing ones) *)
+Theorem C17_copy_sound_thm :
+  forall (host guest : chart) (source replace : name) (rho : list (name * name)),
+         EditProofs.einv host ->
+         EditProofs.einv guest ->
+         has_state host replace = true ->
+         children_for host replace = [] ->
+         has_state guest source = true ->
+         source = replace \/ has_state guest replace = false ->
+         (forall n : name, In n (descendants_for guest source) -> has_state host (rho_apply rho n) = false) ->
+         (forall n : name, In n (descendants_for guest source) -> rho_apply rho n <> "") ->
+         NoDup (map (rho_apply rho) (descendants_for guest source)) ->
+         (forall n : name,
+          In n (descendants_for guest source) ->
+          rho_apply rho n = n \/ has_state guest (rho_apply rho n) = false) ->
+         (forall (n p : name) (sp sn : state),
+          In n (descendants_for guest source) ->
+          lookup n (c_parent guest) = Some (Some p) ->
+          lookup p (c_states guest) = Some sp ->
+          lookup n (c_states guest) = Some sn ->
+          is_composite (s_kind sp) = true /\ (is_history (s_kind sn) = true -> s_kind sp = KCompound)) ->
+         (forall t : transition,
+          In t (c_transitions guest) ->
+          forall tg : name,
+          t_target t = Some tg ->
+          t_source t = source \/ In (t_source t) (descendants_for guest source) <->
+          tg = source \/ In tg (descendants_for guest source)) ->
+         s_memory (CopyProofs.state_of guest source) = None ->
+         (forall t : transition,
+          In t (c_transitions host) ->
+          t_source t = replace -> owns_transitions (s_kind (CopyProofs.state_of guest source)) = true) ->
+         exists h' : chart,
+           copy_from_statechart host guest source replace rho = (h', EOk) /\ EditProofs.einv h'.
+Proof. exact CopyProofs.C17_copy_sound. Qed.
+Print Assumptions C17_copy_sound_thm.
+
+(* ... and those side conditions are needed: a final state copied over a state with an outgoing transition (witness) *)
+Theorem C17_copy_sound_unconditional_refuted_thm :
+  exists (host guest : chart) (source replace : name) (rho : list (name * name)) 
+         (h' : chart),
+           EditProofs.einv host /\
+           EditProofs.einv guest /\
+           copy_from_statechart host guest source replace rho = (h', EOk) /\ ~ EditProofs.sound h'.
+Proof. exact CopyProofs.C17_copy_sound_unconditional_refuted. Qed.
+Print Assumptions C17_copy_sound_unconditional_refuted_thm.
+
+(* ... a history state copied without the sibling its memory names (witness) *)
+Theorem C17_copy_sound_history_memory_refuted_thm :
+  exists (host guest : chart) (source replace : name) (rho : list (name * name)) 
+         (h' : chart),
+           EditProofs.einv host /\
+           EditProofs.einv guest /\
+           copy_from_statechart host guest source replace rho = (h', EOk) /\
+           ~ EditProofs.sound h' /\ validate h' = false.
+Proof. exact CopyProofs.C17_copy_sound_history_memory_refuted. Qed.
+Print Assumptions C17_copy_sound_history_memory_refuted_thm.
+
+(* the copied transitions are NOT always in the guest's own order: a renaming that fixes some children and moves others (witness) *)
+Theorem C17_copy_transitions_guest_order_refuted_thm :
+  exists (host guest : chart) (source replace : name) (rho : list (name * name)) 
+         (h' : chart),
+           EditProofs.einv host /\
+           EditProofs.einv guest /\
+           copy_from_statechart host guest source replace rho = (h', EOk) /\
+           EditProofs.einv h' /\
+           c_transitions h' <>
+           (c_transitions host ++
+            map (EditProofs.map_trans (CopyProofs.rs guest source replace rho))
+              (flat_map (nth_trans (c_transitions guest))
+                 (collect_transitions guest (source :: descendants_for guest source) [])))%list.
+Proof. exact CopyProofs.C17_copy_transitions_guest_order_refuted. Qed.
+Print Assumptions C17_copy_transitions_guest_order_refuted_thm.
+
+(* a refused copy (no such state to replace, or it has children, or the source cannot take its name) leaves the host unchanged *)
+Theorem copy_refused_unchanged_thm :
+  forall (host guest : chart) (source replace : name) (rho : list (name * name)),
+         (has_state host replace = false ->
+          copy_from_statechart host guest source replace rho = (host, EStatechartError)) /\
+         (children_for host replace <> [] ->
+          copy_from_statechart host guest source replace rho = (host, EStatechartError)) /\
+         (forall (g : chart) (r : eres),
+          rename_state guest source replace = (g, r) ->
+          r <> EOk ->
+          copy_from_statechart host guest source replace rho = (host, r) \/
+          copy_from_statechart host guest source replace rho = (host, EStatechartError)) /\
+         (forall (g : chart) (r : eres),
+          has_state host replace = true ->
+          children_for host replace = [] ->
+          rename_state guest source replace = (g, r) ->
+          r <> EOk -> copy_from_statechart host guest source replace rho = (host, r) /\ r = EStatechartError).
+Proof. exact CopyProofs.copy_refused_unchanged. Qed.
+Print Assumptions copy_refused_unchanged_thm.
+
+(* each transition touching the copied subtree is taken exactly once *)
+Theorem copy_transitions_once_thm :
+  forall (g : chart) (names : list name),
+         NoDup (collect_transitions g names []) /\
+         (forall i : nat,
+          In i (collect_transitions g names []) <->
+          (exists t : transition,
+             nth_error (c_transitions g) i = Some t /\
+             (In (t_source t) names \/ (exists tg : name, t_target t = Some tg /\ In tg names)))).
+Proof. exact CopyProofs.copy_transitions_once. Qed.
+Print Assumptions copy_transitions_once_thm.
+
+(* what bit 4 of the correspondence check of copy cases means *)
+Theorem check_ccase_bit4_thm :
+  forall c : ccase,
+         EditProofs.no_empty_name (cc_host c) ->
+         EditProofs.no_empty_name (cc_guest c) ->
+         EditProofs.no_empty_name (cc_post c) ->
+         N.testbit (check_ccase c) 2 = false <->
+         (EditProofs.sound (cc_host c) ->
+          EditProofs.sound (cc_guest c) -> cc_res c = EOk -> EditProofs.sound (cc_post c)).
+Proof. exact CopyProofs.check_ccase_bit4. Qed.
+Print Assumptions check_ccase_bit4_thm.
